@@ -100,6 +100,13 @@ CHECKS = {
         'an oracle checks every traversal entry point, treespec_dict, round trip and register_pytree_node.get(dict) against the current mode.',
    note=TB + 'The mode switch is process-wide and documented as not thread-safe; concurrency is out of scope here (C17).',
    design='§7 C13'),
+ 'C19': dict(
+   technique='Coq proof (field partition and keyword-argument reconstruction for all layouts; standard dataclass behaviour as a Section parameter) + model correspondence of the partition + layout-enumeration oracle against the standard library',
+   text='Theorems: children are the pytree_node fields in declaration order; every init field is a child or metadata and never both, non-init fields are neither; a non-init pytree-node field is rejected; unflatten(flatten(x)) = x for every layout and every instance the class can produce (non-init fields recomputed by __post_init__); '
+        'an optree partial over a partial is not merged (whereas functools.partial merges). The run enumerates all layouts of <= 2 fields and samples 3000 of 3 (thorough: 4) over (init, pytree_node, default/default_factory, kw_only) x {slots, frozen, kw_only, eq=False} x {decorator, make_dataclass}, '
+        'compares the children/metadata partition with the model and checks on the implementation: leaves, metadata, entries, accessors, namespace isolation, round trip with __post_init__ count, tree_map, field-by-field equality with what dataclasses.dataclass produces, frozen, double decoration, empty namespace; and 200 nested optree/functools partials (no merging, (args, keywords) in every namespace, same function, mapped arguments, keyword precedence).',
+   note=TB + 'The standard dataclasses / functools.partial internals are not modelled: the round-trip theorem takes the constructor behaviour as the hypothesis `consistent`, and "otherwise the class dataclasses.dataclass would produce" is compared against the standard library. Inheritance layouts are not enumerated.',
+   design='§7 C19'),
  'C20': dict(
    technique='Coq proof (split/concat list lemmas for all chunk lists incl. zero-size chunks; ravel/unravel inverse laws parametric in promotion and casts) + model correspondence of the bookkeeping + bit-exact oracle on numpy, jax, torch',
    text='Theorems: splitting a concatenation at the cumulative sizes returns the chunks (zero-size included); index-based (numpy/jax) and size-based (torch) splitting agree; concat(split v) = v; unravel(ravel(leaves)) = leaves with the original shapes, dtypes and values, for a single dtype unconditionally and for mixed dtypes exactly under the cast round-trip hypothesis the property states; '
